@@ -17,7 +17,9 @@ RULE = ('Option sequences over --<mutator>/--no-<mutator>, --<group>/--no-<group
         'the last hierarchical pass, and the same minus BinaryReduction for the '
         'union of the ddmin passes; no pass holds a disabled mutator.  Non-trivial: '
         'the sequence changes at least one mutator\'s state or a group flag, or a '
-        'group is auto-disabled; distinct = (sequence, presence vector).')
+        'group is auto-disabled; distinct = (sequence, presence vector).  Plus traced real '
+        'runs with drawn mutator subsets: the classes handed to every Producer / '
+        'TaskGenerator lie within the same bounds.')
 ASSUMPTIONS = [
     'inputs declare a theory unambiguously (declare-const / declare-fun with that return sort / declare-datatype(s)) or do not mention its sorts at all',
     'the registry get_all_mutators() is taken as the list of mutators, their option names and their groups',
@@ -185,6 +187,60 @@ def shard(ctx, acc):
 
     runner.hyp_run(ctx, strat, body, ctx.share(total))
 
+    # traced real runs
+    import os
+    import shutil
+    from vlib import gen_run
+    n = [0]
+
+    def body3(case):
+        n[0] += 1
+        wd = os.path.join(ctx.workdir, f'run{n[0]}')
+        nt = run_traced(dd, groups, case, acc, wd)
+        shutil.rmtree(wd, ignore_errors=True)
+        acc.case(dict(kind='traced', opts=case['opts'], text=case['text']), nontrivial=nt, classes=['traced-run'],
+                 sample=dict(kind='traced', options=case['opts'].get('extra_argv', []), strategy=case['opts']['strategy']))
+
+    runner.hyp_run(ctx, gen_run.run_case(jobs=(1, 2), formats=('default', ), with_cc=False, with_delay=False,
+                                         comparisons=False, mutator_subsets=True, max_asserts=3,
+                                         kinds=['monotone', 'mixed']),
+                   body3, ctx.share(32 if ctx.quick else 600), salt=13)
+
+
+def run_traced(dd, groups, case, acc, wd):
+    """A real run: the mutator classes handed to every Producer / TaskGenerator
+    are within the model's bounds."""
+    from vlib import e2e
+    seq = case['opts'].get('extra_argv', [])
+    enabled, flags = model_fold(groups, seq)
+    presence = dict(arithmetic=True, bv=True, datatypes=False, fp=False, strings=False)
+    may_disable = {g for g in AUTO if flags[g] is None and not presence[g]}
+    upper = {c for c, v in enabled.items() if v}
+    lower = {c for c in upper if not any(c in groups[g] for g in may_disable)}
+    r = e2e.run_ddsmt(wd, case['text'], case['spec'], case['opts'], mode='launcher',
+                      plan=dict(trace=True, stop_on_repeat=True, max_accepts=100), wall_limit=120)
+    if r.timed_out or r.after is None or r.after.get('rc') not in (0, 1):
+        acc.skip('traced run: wall limit / crash')
+        return False
+    seen = {'Producer': set(), 'TaskGenerator': set()}
+    for e in r.trace:
+        if e['e'] == 'G':
+            seen[e['kind']].update(e['mutators'])
+            for c in set(e['mutators']) - upper:
+                acc.violation(f'enabled-though-off/{c}', f'traced run with options {seq}: {e["kind"]} got disabled mutator {c}',
+                              dict(case, kind='traced'))
+    complete = r.after.get('rc') == 0 and not r.after.get('repeat')
+    strat = case['opts']['strategy']
+    if complete and strat in ('hierarchical', 'hybrid'):
+        for c in sorted(lower - seen['Producer']):
+            acc.violation(f'dropped-though-on/{c}', f'traced run with options {seq}: no Producer ever got enabled mutator {c}',
+                          dict(case, kind='traced'))
+    if complete and strat in ('ddmin', 'hybrid'):
+        for c in sorted(lower - {'BinaryReduction'} - seen['TaskGenerator']):
+            acc.violation(f'dropped-though-on/{c}', f'traced run with options {seq}: no TaskGenerator ever got enabled mutator {c}',
+                          dict(case, kind='traced'))
+    return bool(seq)
+
 
 def finish(acc, tier):
     acc.extra['singles_and_pairs_exhaustive'] = True
@@ -192,4 +248,8 @@ def finish(acc, tier):
 
 def replay(case, acc, ctx):
     dd = env.load()
-    run_case(dd, registry(dd), case, acc)
+    if case.get('kind') == 'traced':
+        import os
+        run_traced(dd, registry(dd), case, acc, os.path.join(ctx.workdir, 'replay'))
+    else:
+        run_case(dd, registry(dd), case, acc)
